@@ -178,11 +178,15 @@ impl Value {
             Self::UnaryOp(op, v) => {
                 let value = v.do_evaluate(scope, true)?;
                 match (op, value) {
-                    (Operator::Not, css::Value::Numeric(v, _)) => {
-                        (v.value == 0.into()).into()
-                    }
-                    (Operator::Not, css::Value::True) => css::Value::False,
-                    (Operator::Not, css::Value::False) => css::Value::True,
+                    // Only false and null are falsey, all numbers are true.
+                    (
+                        Operator::Not,
+                        css::Value::Numeric(..) | css::Value::True,
+                    ) => css::Value::False,
+                    (
+                        Operator::Not,
+                        css::Value::False | css::Value::Null,
+                    ) => css::Value::True,
                     (Operator::Minus, css::Value::Numeric(v, _)) => {
                         css::Value::Numeric(-&v, true)
                     }
